@@ -276,6 +276,7 @@ func (rd *remoteDelivery) connectionForDomain(ctx context.Context, domain string
 
 	if err := conn.Mail(ctx, rd.mailFrom, mailOpts); err != nil {
 		conn.Close()
+		rd.rt.limits.ReleaseDest(domain)
 		return nil, err
 	}
 	conn.lastUseAt = time.Now()
